@@ -70,3 +70,58 @@ Fixpoint program (exp : table -> list tok -> list tok * bool) (d : table) (p : l
   end.
 Definition impl_program (fuel : nat) := program (fun d ts => impl_expand d fuel ts) (fun _ => None).
 Definition spec_program (fuel : nat) := program (fun d ts => cpp_expand d fuel ts) (fun _ => None).
+
+(* ---------------- # : CPPManifest::stringify as the character-level state machine it is, and C11 6.10.3.2 over tokens *)
+Require Import NArith.
+Notation chr := N (only parsing).
+Definition c_dq : N := 34%N.
+Definition c_sq : N := 39%N.
+Definition c_bs : N := 92%N.
+
+Record sstate := { escaped : bool; in_sq : bool; in_dq : bool }.
+Definition s0 := {| escaped := false; in_sq := false; in_dq := false |}.
+
+(* one character: what is appended, and the next state.  [fixed] = quotes of the other kind do not toggle inside a literal (repaired code) *)
+Definition sstep (fixed : bool) (st : sstate) (c : N) : list N * sstate :=
+  if escaped st then
+    ((if N.eqb c c_bs || N.eqb c c_dq then [c_bs; c] else [c]), {| escaped := false; in_sq := in_sq st; in_dq := in_dq st |})
+  else if N.eqb c c_bs then
+    (if in_sq st || in_dq st then ([c_bs; c], {| escaped := true; in_sq := in_sq st; in_dq := in_dq st |}) else ([c], st))
+  else if N.eqb c c_sq then
+    ([c], if fixed && in_dq st then st else {| escaped := false; in_sq := negb (in_sq st); in_dq := in_dq st |})
+  else if N.eqb c c_dq then
+    ([c_bs; c], if fixed && in_sq st then st else {| escaped := false; in_sq := in_sq st; in_dq := negb (in_dq st) |})
+  else ([c], st).
+
+Fixpoint srun (fixed : bool) (st : sstate) (s : list N) : list N * sstate :=
+  match s with
+  | [] => ([], st)
+  | c :: r => let (o, st') := sstep fixed st c in let (o2, st'') := srun fixed st' r in (o ++ o2, st'')
+  end.
+Definition stringify (fixed : bool) (s : list N) : list N := c_dq :: fst (srun fixed s0 s) ++ [c_dq].
+
+(* the argument as preprocessing tokens: literals (string or character) whose body is made of plain characters and escape pairs,
+   and everything else (identifiers, numbers, punctuators, white space) *)
+Inductive item := Plain (c : N) | Esc (c : N).
+Inductive stok := SLit (dq : bool) (body : list item) | SOther (cs : list N).
+
+Definition quote_of (dq : bool) : N := if dq then c_dq else c_sq.
+Definition item_src (i : item) : list N := match i with Plain c => [c] | Esc c => [c_bs; c] end.
+Definition stok_src (t : stok) : list N :=
+  match t with SLit dq body => quote_of dq :: flat_map item_src body ++ [quote_of dq] | SOther cs => cs end.
+
+(* 6.10.3.2: a backslash is inserted before each double quote and backslash of a character constant or string literal, delimiters included *)
+Definition esc_char (c : N) : list N := if N.eqb c c_bs || N.eqb c c_dq then [c_bs; c] else [c].
+Definition item_spec (i : item) : list N := match i with Plain c => esc_char c | Esc c => [c_bs; c_bs] ++ esc_char c end.
+Definition stok_spec (t : stok) : list N :=
+  match t with SLit dq body => esc_char (quote_of dq) ++ flat_map item_spec body ++ esc_char (quote_of dq) | SOther cs => cs end.
+Definition stringify_spec (ts : list stok) : list N := c_dq :: flat_map stok_spec ts ++ [c_dq].
+
+(* well-formed: a plain character of a literal is neither its delimiter nor a backslash; other tokens contain no quote and no backslash *)
+Definition item_ok (dq : bool) (i : item) : bool :=
+  match i with Plain c => negb (N.eqb c (quote_of dq)) && negb (N.eqb c c_bs) | Esc _ => true end.
+Definition stok_ok (t : stok) : bool :=
+  match t with
+  | SLit dq body => forallb (item_ok dq) body
+  | SOther cs => forallb (fun c => negb (N.eqb c c_dq) && negb (N.eqb c c_sq) && negb (N.eqb c c_bs)) cs
+  end.
